@@ -202,6 +202,22 @@ def rule_children(ck):
                      oo.fail('the refinement counts events at `%s`, not at the catalog\'s %s: cells are then split (or kept) by events the '
                              'point lookup places elsewhere, so a cell can exceed the threshold or be split at or below it'
                              % (u(e)[:90] if e is not None else '?', acc[4:])))
+            # ... with the threshold and the maximum zoom the caller asked for: a threshold of 0 is a threshold, not a missing argument
+            for c in calls[:1]:
+                m, okb = bind_args(g, c)
+                for pname in ('threshold', 'zoom'):
+                    if pname not in f.params or pname not in m:
+                        continue
+                    oo = ck.ob('C17-D3.asked', f, '%s handed to the refinement' % pname, c)
+                    e = ex.expand(m[pname])
+                    from ..core.expand import phi_alternatives
+                    from .common import is_none_test
+                    alts = phi_alternatives(e)
+                    defaulted = len(alts) > 1 and any(isinstance(a_, ast.Name) and a_.id == pname for a_ in alts) and \
+                        all(any(is_none_test(t_, pname) == pol_ for t_, pol_ in guards_of(d_, f.node)) for d_ in find_assignments(f, pname))
+                    (oo.ok('the argument itself') if (isinstance(e, ast.Name) and e.id == pname) or defaulted else
+                     oo.fail('the refinement runs with %s = `%s`, not with the value the caller gave: cells are then split at another count '
+                             '(or depth) than the one asked for' % (pname, u(e)[:80])))
         # the result is built from the collected quadkeys
         o = ck.ob('C17-D2.collect', f, 'region built from the collected quadkeys', f.node)
         r = [x for x in returns(f) if x.value is not None]
@@ -371,7 +387,12 @@ def rule_bounds(ck):
     p = v.positional_params[0]
     ok = isinstance(e, ast.Tuple) and len(e.elts) == 4 and u(e.elts[0]) == '(%s[0], %s[1])' % (p, p)
     (o.ok() if ok else o.fail('the first polygon vertex (the cell origin) is not (west, south)'))
-    # pure lookup
+    rule_point_lookup(ck)
+
+
+def rule_point_lookup(ck):
+    """the point lookup: a pure function of the tile bounds, asked once per point with the coordinates as given, every answer kept"""
+    P = ck.prog
     fl = P.func(Q + '_find_location')
     gi = P.func(Q + 'get_index_of')
     for f in (fl, gi):
@@ -402,6 +423,48 @@ def rule_bounds(ck):
     lp = [n for n in all_nodes(gi) if isinstance(n, ast.For)]
     ok = ok and len(lp) == 1 and u(lp[0].iter) == 'range(len(lons))'
     (o.ok() if ok else o.fail('get_index_of does not call _find_location(lon_i, lat_i) for every point in order'))
+    # ... with the coordinates it was given: nothing folds, shifts or rounds a longitude / latitude on the way (a point on the last
+    # edge of the range, lon = 180, would be moved into the first column)
+    exg = Expander(P, gi)
+    pl, pt = [p_ for p_ in gi.positional_params if p_ != 'self'][:2]
+    for c in calls:
+        for a, pn in zip(c.args[:2], (pl, pt)):
+            oo = ck.ob('C17-D4.asgiven', gi, '%s reaches _find_location as given' % pn, c)
+            try:
+                e = exg.expand(a)
+            except Inconclusive as ex_:
+                oo.unknown(str(ex_))
+                continue
+            def values(x):
+                # the expression without its subscript positions (lats[i]: `i` is a position, not a coordinate)
+                yield x
+                for fld, val in ast.iter_fields(x):
+                    if isinstance(x, ast.Subscript) and fld == 'slice':
+                        continue
+                    for y in (val if isinstance(val, list) else [val]):
+                        if isinstance(y, ast.AST):
+                            yield from values(y)
+            walk_ = list(values(e))
+            bad = [x for x in walk_ if isinstance(x, (ast.BinOp, ast.IfExp)) or
+                   (isinstance(x, ast.Call) and (call_name(x) or '').split('.')[-1] in ('where', 'mod', 'fmod', 'remainder', 'round', 'around', 'floor', 'ceil', 'clip', 'abs'))]
+            roots = {n.id for n in walk_ if isinstance(n, ast.Name) and n.id in (pl, pt)}
+            (oo.fail('the %s handed to the bounds test is `%s`, not the coordinate that was asked about' % (pn, u(e)[:80])) if bad or roots != {pn} else
+             oo.ok('unchanged'))
+    # ... and every answer is kept: the index 0 is a cell like any other, not "nothing found"
+    from .common import value_conditions
+    ok_ = ck.ob('C17-D4.keep', gi, 'no located index is dropped by a truth test', gi.node)
+    drop = []
+    for v, n in value_conditions(gi):
+        try:
+            t = u(exg.expand(v))
+        except Inconclusive:
+            t = u(v)
+        if isinstance(v, ast.Name):
+            t += ' ' + ' '.join(u(d_.value) for d_ in find_assignments(gi, v.id) if isinstance(d_, ast.Assign))
+        if '_find_location' in t and not any(w in u(v) for w in ('.size', 'len(', '.shape')):
+            drop.append((v, n))
+    (ok_.fail('`%s` is used as a condition: it is false for the cell with index 0, whose events are then treated as lying outside the grid' % u(drop[0][0])[:50])
+     if drop else ok_.ok())
 
 
 def rule_precision(ck):
